@@ -173,7 +173,7 @@ class P_pdffit(StructureParser):
                 superlattice = Lattice(*superlatpars)
                 stru.placeInLattice(superlattice)
                 stru.pdffit["ncell"] = [1, 1, 1, p_natoms]
-        except (ValueError, IndexError, StopIteration, ZeroDivisionError):
+        except (ValueError, IndexError, StopIteration, ArithmeticError):
             emsg = "%d: file is not in PDFfit format" % p_nl
             exc_type, exc_value, exc_traceback = sys.exc_info()
             e = StructureFormatError(emsg)
